@@ -11,6 +11,7 @@ CONSTANTS
   MaxChanges = 8
   MaxT = 12
   MaxOps = 40
+  MaxEvents = 4
   MaxFails = 3
 INVARIANTS Refines NoLostUpdate EmitAtEnd
 CHECK_DEADLOCK FALSE
